@@ -33,7 +33,7 @@ ASSUMPTIONS = [
 ]
 COMPONENTS = {'real': tc.TAGGER_REAL + ['blacklisted_binning_contigs / blacklisted_binning / fill_range', 'bp_chunked', 'cut-site ownership filter in run_tagging_task'],
               'stub': tc.TAGGER_STUB}
-REQUIRED_PROBES = ['fragment_at_contig_start', 'contig_with_only_placed_unmapped_reads', 'tiling_lifetime', 'molecule_straddles_tile_edge', 'site_on_tile_boundary', 'delivery_order_not_submission_order', 'multi_job_tiling', 'margin_larger_than_segment', 'unplaced_reads']
+REQUIRED_PROBES = ['forked_worker_processes', 'fragment_at_contig_start', 'contig_with_only_placed_unmapped_reads', 'tiling_lifetime', 'molecule_straddles_tile_edge', 'site_on_tile_boundary', 'delivery_order_not_submission_order', 'multi_job_tiling', 'margin_larger_than_segment', 'unplaced_reads']
 
 
 def plan(tier):
@@ -81,11 +81,11 @@ def generate(seed, tier):
         return {'params': params, 'genome': genome, 'workload': frags,
                 'modes': [{'mp': False, 'name': 'S'}, {'mp': True, 'name': 'P', 'width': s.randint(1, 8), 'schedule': {'policy': 'seeded'}, 'seed': seed + 'P'}]}
     modes = [{'mp': False, 'name': 'S'},
-             {'mp': True, 'name': 'P', 'width': s.randint(1, 8), 'schedule': {'policy': 'seeded'}, 'seed': seed + 'P'}]
+             {'mp': True, 'name': 'P', 'width': s.randint(1, 8), 'schedule': {'policy': 'seeded'}, 'seed': seed + 'P', 'isolation': s.choice(['inproc', 'fork'])}]
     for t in range(2):
         sg = seg if t == 0 else max(maxlen // 60, weighted(w, [(w.randint(30, 300), 3), (w.randint(301, 5000), 2)]))
         fsz = weighted(w, [(longest, 3), (longest + w.randint(1, 200), 3), (max(longest, sg + w.randint(1, 500)), 2)])
-        modes.append({'mp': True, 'name': f'T{t}', 'api': 'tiling', 'width': s.randint(1, 8), 'schedule': {'policy': 'seeded'}, 'seed': seed + f'T{t}',
+        modes.append({'mp': True, 'name': f'T{t}', 'api': 'tiling', 'width': s.randint(1, 8), 'schedule': {'policy': 'seeded'}, 'seed': seed + f'T{t}', 'isolation': s.choice(['inproc', 'fork']),
                       'tiling': {'bp_per_segment': sg, 'bp_per_job': sg * w.randint(1, 20), 'fragment_size': fsz}})
     return {'params': params, 'genome': genome, 'workload': frags, 'modes': modes}
 
@@ -135,6 +135,8 @@ def execute(case):
             ctx = {'mode': name, 'method': p['method'], 'tiling': mode.get('tiling'), 'width': mode.get('width')}
             if mode.get('mp') and order != sorted(order):
                 probe('delivery_order_not_submission_order')
+            if mode.get('isolation') == 'fork':
+                probe('forked_worker_processes')
             if mode.get('api') == 'tiling':
                 probe('tiling_lifetime')
                 t = mode['tiling']
